@@ -1,4 +1,5 @@
 import I18n.Model.PluralLR
+import I18n.Model.PluralLex
 import I18n.Driver.Plural
 /- Driver for the LR-driver model: `plurallr parse <hex>` prints the outcome and the sequence of productions the
    run reduced by (comparable with the real rply parser whose action functions the harness wraps). -/
@@ -31,8 +32,25 @@ def runTrace (T : Tables) : Nat → Config → List Nat → Result × List Nat
 
 def showTrace (tr : List Nat) : String := ",".intercalate (tr.map toString)
 
+/-- rply token name and canonical text of a token -/
+def showTok : PluralParse.Tok → String
+  | .qm => "IF:?" | .colon => "ELSE::"
+  | .bool .or => "OR:||" | .bool .and => "AND:&&"
+  | .cmp .eq => "EQ:==" | .cmp .noteq => "EQ:!="
+  | .cmp .lt => "CMP:<" | .cmp .lte => "CMP:<=" | .cmp .gt => "CMP:>" | .cmp .gte => "CMP:>="
+  | .bin .add => "ADDSUB:+" | .bin .sub => "ADDSUB:-"
+  | .bin .mult => "MULDIV:*" | .bin .div => "MULDIV:/" | .bin .mod => "MULDIV:%"
+  | .not => "NOT:!" | .lpar => "LPAR:(" | .rpar => "RPAR:)" | .var => "VAR:n"
+  | .int n => s!"INT:{n}"
+
 def handle (op : String) (args : List String) : String :=
   match op, args with
+  | "lex", [h] =>
+    -- the lexer interpreted from the dumped regular expressions
+    match I18n.PluralLex.lex (Driver.unhexChars h) with
+    | .ok ts => "ok " ++ " ".intercalate (ts.map showTok)
+    | .lexingError => "err lex"
+    | .crash => "err crash"
   | "parse", [h] =>
     match I18n.PluralParse.lex (Driver.unhexChars h) with
     | .syntaxError => "err syntax ; lex"
